@@ -159,6 +159,31 @@ impl Env {
         (match r { Ok(Ok(())) => 0, Ok(Err(_)) => 1, Err(_) => 2 }, m)
     }
 
+    /// C10 (1): fail every write call of a save in turn (needs patches/hook-rdb-failat.diff in /repo
+    /// and `--cfg ferrous_verif_rdb_failat` for this crate)
+    #[cfg(ferrous_verif_rdb_failat)]
+    fn failsweep(&mut self) -> Vec<Tok> {
+        use ferrous::storage::rdb::verif;
+        let rdb = self.rdb(); let eng = self.eng.clone();
+        verif::fail_at(-1);
+        let ok0 = rdb.save(&eng).is_ok();
+        let n = verif::calls() as i64;
+        let before = std::fs::read(self.file()).ok();
+        let (mut all_err, mut unchanged) = (ok0, before.is_some());
+        for k in 0..n {
+            verif::fail_at(k);
+            let r = catch_unwind(AssertUnwindSafe(|| rdb.save(&eng)));
+            if !matches!(r, Ok(Err(_))) { all_err = false; }
+            if std::fs::read(self.file()).ok() != before { unchanged = false; }
+        }
+        verif::fail_at(-1);
+        let later = rdb.save(&eng).is_ok() && { self.clear_engine(); self.load_current().0 == 0 };
+        vec![Tok::I(n as i128), i(all_err as i64), i(unchanged as i64), i(later as i64)]
+    }
+    #[cfg(not(ferrous_verif_rdb_failat))]
+    fn failsweep(&mut self) -> Vec<Tok> { vec![b("NOHOOK")] }
+    pub fn has_failat_hook() -> bool { cfg!(ferrous_verif_rdb_failat) }
+
     /// one op: (rewritten op, output)
     pub fn op(&mut self, prop: &str, op: &[Tok]) -> (Vec<Tok>, Vec<Tok>) {
         let name = tok_bytes(&op[0]).to_vec();
@@ -266,6 +291,11 @@ impl Env {
                 let _ = std::fs::remove_dir_all(&tmp);
                 let after = std::fs::read(self.file()).ok();
                 vec![i(st), i((before == after) as i64)]
+            }
+            b"FAILSWEEP" => {
+                let w = wall_ms();
+                nop.truncate(2); nop.push(Tok::I(w));
+                self.failsweep()
             }
             b"PROBE" => {
                 let w = wall_ms();
